@@ -1,7 +1,7 @@
 """C08: filter/split/error/short results keep accounting exact."""
 import os, sys
 sys.path.insert(0, os.path.dirname(__file__))
-from funnel_common import arbiter_job, funnel_job, funnel_conc_job, funnel_shared_job, FUNNEL_RULE, FUNNEL_ASSUME
+from funnel_common import arbiter_job, funnel_job, funnel_conc_job, funnel_shared_job, FUNNEL_RULE, FUNNEL_ASSUME, tree_jobs, TREE_MODULES, TREE_RULE, TREE_ASSUME
 
 PROP = {
     "lean_modules": ["ConduitModel.Props.BatchProps", "ConduitModel.Props.ArbiterProps"],
@@ -17,8 +17,14 @@ PROP["jobs"].append({"harness": "h_stream", "comp": "pipe", "n_quick": 400, "n_t
                             "the real v1 node graph is not a behaviour of the pipeline model (processor position-change refusal, source acks carry the read position)"})
 PROP["lean_modules"] += ["ConduitModel.Props.C01Stream", "ConduitModel.Facts.Stream"]
 
+# the trees the arch-v2 service builds are the trees Props/MonSound covers (Props/TreeShape, Props/TreeBuilt)
+PROP["jobs"] += tree_jobs()
+PROP["lean_modules"] += TREE_MODULES
+PROP["rule"] += TREE_RULE
+PROP["assumptions"] = list(PROP["assumptions"]) + TREE_ASSUME
+
 META = {
     "text": 'Lean 4 theorems for every batch and every plugin reply: all Batch mutators preserve the alignment/filter-count invariant (C08_aligned_*), flag/nack/SetRecords marks hit exactly the physical index of the addressed active record and nothing else (C08_mark_hits_right_record*, C08_setRecords_hits_right_record, C08_dest_marks_right_record), the split-run ledger releases a run exactly once when all live pieces voted, nack iff some piece failed (C08_run_released_once*, C08_split_all_before_ack, C08_split_nack_only_after_failure); agreement lemmas tie the pure restatements to the monadic model. Whole-pass accounting is decided by equality with the model and the monitors.',
-    "note": 'Batch bookkeeping and run ledger proved for all inputs; Monitor soundness is PROVED for the model for linear and one-level fan-out trees — the only shapes lifecycle-poc builds (source → processors → fan-out → per-branch processors → destination) — RECORD SPLITTING INCLUDED (Props/MonSound: monitor_sound_linear, monitor_sound_fan1, the no-split forms monitor_sound_linear_nosplit / monitor_sound_nosplit_fan1 and the per-clause forms C01_v2_monitor_sound_*: every clause of the Lean trace monitor is silent on every run of the model, over multi-batch runs, any fuel/window/outcomes, under the decidable run hypotheses RootPreserving / FreshTags / sorted roots); for NESTED fan-out (a shape the engine API allows but the service never builds) the whole-pass claim rests on event-log equality with the model and on the monitor evaluated on every implementation trace (partial).',
+    "note": 'Batch bookkeeping and run ledger proved for all inputs; Monitor soundness is PROVED for the model for linear and one-level fan-out trees — the only shapes lifecycle-poc builds (source → processors → fan-out → per-branch processors → destination): PROVED for the model of the builder (Props/TreeShape workerTree_fan1/_kind/_tasks/_dests, monitor_sound_built; Props/TreeBuilt built_fan1/_kind/_dests/_nodup, buildWorkers_never_bug, monitor_sound_service: every tree of every configuration buildRunnablePipeline accepts; distinct task ids under IdSpaces = connector and processor ids do not meet, which the code does not check), the builder model tied to the real buildRunnablePipeline / buildSharedTail / AppendToEnd by the treeshape / appendtoend correspondence and Facts/TreeShape — RECORD SPLITTING INCLUDED (Props/MonSound: monitor_sound_linear, monitor_sound_fan1, the no-split forms monitor_sound_linear_nosplit / monitor_sound_nosplit_fan1 and the per-clause forms C01_v2_monitor_sound_*: every clause of the Lean trace monitor is silent on every run of the model, over multi-batch runs, any fuel/window/outcomes, under the decidable run hypotheses RootPreserving / FreshTags / sorted roots); for NESTED fan-out (a shape the engine API allows but the service never builds) the whole-pass claim rests on event-log equality with the model and on the monitor evaluated on every implementation trace (partial).',
     "technique": 'Lean 4 data-structure invariants and exact-effect theorems + model/implementation trace equality + Lean-defined trace monitor',
 }
